@@ -194,13 +194,29 @@ def mk(op, ty, *args):
         hi, lo, a = args
         if is_ic(a):
             return ic(ty, a.args[0] >> lo)
+        if lo == 0 and hi == ibits(a.ty) - 1:
+            return a
         if a.op == 'concat':
             h, l = a.args
             lb = ibits(l.ty)
-            if lo == 0 and hi == lb - 1:
-                return l
-            if lo == lb and hi == lb + ibits(h.ty) - 1:
-                return h
+            if hi < lb:
+                return mk('extract', ty, hi, lo, l)
+            if lo >= lb:
+                return mk('extract', ty, hi - lb, lo - lb, h)
+        if a.op == 'extract':
+            return mk('extract', ty, hi + a.args[1], lo + a.args[1], a.args[2])
+        if a.op in ('zext',) and hi < ibits(a.args[0].ty):
+            return mk('extract', ty, hi, lo, a.args[0])
+    elif op == 'concat':
+        h, l = args
+        if h.op == 'extract' and l.op == 'extract' and h.args[2] is l.args[2] and h.args[1] == l.args[0] + 1:
+            return mk('extract', ty, h.args[0], l.args[1], h.args[2])
+        if l.op == 'concat' and h.op == 'extract':
+            # concat(h, concat(m, r)) with h, m adjacent extracts of the same value: merge them first
+            m_, r_ = l.args
+            if m_.op == 'extract' and m_.args[2] is h.args[2] and h.args[1] == m_.args[0] + 1:
+                hm = mk('extract', 'i%d' % (ibits(h.ty) + ibits(m_.ty)), h.args[0], m_.args[1], h.args[2])
+                return mk('concat', ty, hm, r_)
     if op in COMM:
         a, b = args
         if a.id > b.id:
